@@ -274,3 +274,84 @@ def check_borrowed_dtype(ctx, fi, rule='R-DTYPE/borrowed-type'):
                   'around' if tcls == 'value' else
                   'values kept in the position type are truncated'))
     return n
+
+
+def _is_count(node):
+    """len(x), x.shape, x.size, x.nnz: how many, not which"""
+    if isinstance(node, ast.Call) and isinstance(node.func, ast.Name) \
+            and node.func.id == 'len':
+        return True
+    if isinstance(node, ast.Attribute) and node.attr in ('shape', 'size',
+                                                         'nnz'):
+        return True
+    return False
+
+
+def _kinds(fi, expr):
+    """(parameters whose *elements* the value derives from, does it derive
+    from counts)"""
+    sl = backward_slice(fi, expr, opaque=_is_count)
+    return set(sl.params), bool(sl.opaque), sl
+
+
+def check_bound_kind(ctx, fi, rule='R-CAP/bound-kind'):
+    """An array whose integer type is chosen from a bound
+    (`choose_int_dtype((lo, B))`) holds either *values* taken from some
+    container (gene indices, row numbers) or *counts* (running totals of
+    lengths: an indptr).  The bound has to be of the same kind: a type
+    sized from the number of entries says nothing about how large the
+    entries are (few entries, large values: they wrap around), and a type
+    sized from the largest entry says nothing about how many there are.
+    Decided on data slices in which `len(x)`, `x.shape`, `x.size` are
+    counts and are not looked into: a bound that derives from counts only
+    while the stored values derive from the elements of a parameter (or
+    the reverse) is of the wrong kind.  Bounds that are parameters
+    themselves (`n_genes`) are not judged."""
+    arrs = _typed_arrays(fi)
+    n = 0
+    judged = dict()
+    for st in ast.walk(fi.node):
+        if isinstance(st, ast.Assign) and len(st.targets) == 1:
+            tg = st.targets[0]
+        elif isinstance(st, ast.AugAssign):
+            tg = st.target
+        else:
+            continue
+        if not (isinstance(tg, ast.Subscript) and isinstance(
+                tg.value, ast.Name) and tg.value.id in arrs):
+            continue
+        if isinstance(st.value, ast.Constant):
+            continue
+        name = tg.value.id
+        dt = arrs[name]
+        sd = backward_slice(fi, dt)
+        bound = None
+        for c in sd.calls:
+            f = c.func
+            nm = f.id if isinstance(f, ast.Name) else getattr(f, 'attr', '')
+            if nm == 'choose_int_dtype' and c.args:
+                bound = c.args[0]
+        if bound is None:
+            continue
+        b_elem, b_count, _ = _kinds(fi, bound)
+        v_elem, v_count, _ = _kinds(fi, st.value)
+        verdict = None
+        if v_elem and not b_elem and b_count:
+            verdict = ('values', 'the number of entries')
+        elif not v_elem and v_count and b_elem and not b_count:
+            verdict = ('counts', 'the largest entry')
+        judged.setdefault(name, []).append((st, verdict, bound))
+    for name, items in sorted(judged.items()):
+        n += 1
+        ctx.touch(fi)
+        bad = [(st, v, b) for (st, v, b) in items if v is not None]
+        ok = not bad
+        st, v, b = (bad or items)[0]
+        ctx.ob(rule, f'{fi.qual}:{name}', fi.loc(st), ok,
+               f'the type of `{name}` is sized from a bound of the kind of '
+               'what it stores' if ok else
+               f'`{unparse(st)[:60]}` stores {v[0]} in `{name}`, whose '
+               f'integer type is sized from `{unparse(b)[:40]}`, i.e. from '
+               f'{v[1]}: that bounds the wrong quantity and the stored '
+               'numbers wrap around')
+    return n
